@@ -149,6 +149,16 @@ def c13(tier, seed):
 
 
 def c14(tier, seed):
+    r = _c14(tier, seed)
+    m = mcp_check(tier, seed)      # a ledger gives the same result in the CLI and in the MCP tools, whatever was asked before
+    r['findings'] += [f for f in m['findings'] if f['prop'] == 'C14']
+    r['coverage']['mcp_sessions'] = m['coverage'].get('sessions', 0)
+    r['coverage']['states'] += m['coverage']['states']
+    r['coverage']['transitions'] += m['coverage']['transitions']
+    return r
+
+
+def _c14(tier, seed):
     return combine([dsl_family('roundtrip', 1), dsl_family('json', 1), cli_family(tier)], ['nontrivial', 'json_spellings'],
                    'every generated transaction written by the real DSL writer (byte-compared with the specification\'s Write), '
                    'parsed back, re-written (idempotence), and round-tripped through the tool\'s JSON; every documented JSON input spelling (money as string / number / object, action and ticker case, zero clause omitted or spelt, CAP_RETURN alias) read by serde; TLC checks RoundTrips and '
